@@ -58,7 +58,25 @@ def path_case(draw, defaults=False):
           "max_patience": draw(st.sampled_from([2, 1, 10]))}
     # one path in five meets a GEMINI whose score turns NaN after so many validation evaluations of the penalised phase
     nan_after = draw(st.one_of(st.none(), st.none(), st.none(), st.none(), st.integers(1, 14)))
-    return {"spec": s, "path": pa, "nan_after": nan_after}
+    # a user-written objective may take negative values (a signed cost, a score with a constant subtracted): one path in six
+    shift = draw(st.sampled_from([None, None, None, None, None, 1.0, 0.3]))
+    return {"spec": s, "path": pa, "nan_after": nan_after, "score_shift": shift}
+
+
+def shift_scores(est, c):
+    """the model's objective with a constant subtracted from every score (gradients unchanged)"""
+    g = est.get_gemini()
+    base = type(g)
+
+    class Shifted(base):
+        def __call__(self, y_pred, affinity, return_grad=False):
+            out = base.__call__(self, y_pred, affinity, return_grad)
+            if return_grad:
+                return out[0] - c, out[1]
+            return out - c
+
+    g.__class__ = Shifted
+    est.get_gemini = lambda: g
 
 
 @st.composite
@@ -139,6 +157,9 @@ def oracle_path(case):
     X = E.build_data(s)
     est, y = E.build(s, X)
     d = X.shape[1]
+    if case.get("score_shift"):
+        shift_scores(est, case["score_shift"])
+        label += f" [objective minus {case['score_shift']}]"
     if case.get("nan_after") and s["alpha"] > 0:
         poison(est, case["nan_after"])
         label += f" [score becomes NaN at the {case['nan_after']}-th validation evaluation under a penalty]"
@@ -157,7 +178,7 @@ def oracle_path(case):
     best_weights, geminis, penalties, alphas, n_features = res
     L = len(alphas)
     want_bs = len(X) if s.get("batch_size") is None else s["batch_size"]
-    odd = sorted({c["bs"] for c in calls if c["bs"] != want_bs})
+    odd = sorted({c["bs"] for c in calls if min(c["bs"], len(X)) != min(want_bs, len(X))})  # larger than the data = the whole data
     if odd:
         raise Violation(f"{label}: validation scores were computed over blocks of {odd} rows while the model's batch size is "
                         f"{want_bs}: the scores that the best-weights rule compares are not computed alike")
